@@ -396,10 +396,14 @@ func isErrorEdge(e Edge) bool {
 	if !ok {
 		return false
 	}
-	if !isErrType(bo.X.Type()) && !strings.HasSuffix(bo.X.Type().String(), "status.Status") {
+	x, y := bo.X, bo.Y
+	if NilConst(x) && !NilConst(y) {
+		x, y = y, x // nil != err
+	}
+	if !isErrType(x.Type()) && !strings.HasSuffix(x.Type().String(), "status.Status") {
 		return false
 	}
-	if !NilConst(bo.Y) {
+	if !NilConst(y) {
 		return false
 	}
 	ne := bo.Op == token.NEQ
